@@ -266,7 +266,14 @@ def campaign(machine, scripts, tmp: Path, shard: int) -> Tuple[List[Dict[str, An
                     rseq.append(rest.proj(err))
                     oseq.append(projs[j])
             rid += 1
-            recs.append({"id": shard * 1_000_000 + (0 if machine.impl == "py" else 250_000) + rid, "impl": machine.impl, "kind": "future", "cls": classify(at[i]), "loaderr": 1 if lerr else 0,
+            on_held = False
+            for a0 in items[:i]:
+                if a0["ev"] == "OnKey":
+                    on_held = True
+                elif a0["ev"] == "OnKeyUp":
+                    on_held = False
+            recs.append({"id": shard * 1_000_000 + (0 if machine.impl == "py" else 250_000) + rid, "impl": machine.impl, "kind": "future",
+                         "cls": classify(at[i]) + ("+onheld" if on_held else ""), "loaderr": 1 if lerr else 0,
                          "orig": oseq, "rest": rseq if not lerr else oseq, "lerr": lerr or "", "replay": {"impl": machine.impl, "script": script, "point": i}})
             if len(bundles) < 40 and (i % 3 == 0):
                 bundles.append((path, {"common": None, "point": i, "script": script}))
